@@ -196,6 +196,15 @@ def extra_C14(ctx):
             for rep in range(2):
                 scs = ",".join(H(1 + r.below(L - 1)) for _ in range(n)) or "-"
                 lines.append("zero.heap.batch_invert %s -" % scs); meta.append(("heap", "batch_invert", n))
+            # the PUBLIC multiscalar API (owned and borrowed iterators, Edwards and Ristretto): same points, different scalars
+            for rep in range(2):
+                scs = ",".join(H(r.below(L)) for _ in range(n)) or "-"
+                lines.append("zero.heap.msm_public %s %s" % (scs, pts)); meta.append(("heap", "msm_public", n))
+        Pb = pyref.compress(pyref.smul(7, pyref.B)).hex()
+        for rep in range(2):
+            lines.append("zero.heap.mul_public %s %s" % (Pb, H(r.below(L)))); meta.append(("heap", "mul_public", 1))
+        for rep in range(2):
+            lines.append("zero.heap.sign %s 616263" % r.bytes(32).hex()); meta.append(("heap", "sign", 1))
         outs = run_zero(binary, lines)
         evals += len(lines)
         expected_explicit = {"scalar": "00" * 32, "edwards": "01" + "00" * 31, "cedwards": "01" + "00" * 31, "ristretto": "00" * 32,
